@@ -28,13 +28,24 @@ func VerifNewServer() p9p.FileSys {
 // VerifValidate checks, for every node reachable from the root, that its
 // reference count equals its number of parent links (the root has one
 // implicit link). It mirrors validate() in inode_test.go.
-func VerifValidate(fsys p9p.FileSys) error {
+//
+// nodes are additional nodes to check (see VerifHandleNodes): nodes that were
+// removed from the tree are no longer reachable from the root, but their
+// reference count must still equal their number of parent links (zero, once
+// every handle is clunked).
+func VerifValidate(fsys p9p.FileSys, nodes ...interface{}) error {
 	fs, ok := fsys.(*fServer)
 	if !ok {
 		return fmt.Errorf("not a ramfs server")
 	}
 	links := map[*FileEnt]int{fs.root: 1}
 	seen := map[*FileEnt]bool{}
+	var extra []*FileEnt
+	for _, n := range nodes {
+		if f, ok := n.(*FileEnt); ok && f != nil {
+			extra = append(extra, f)
+		}
+	}
 	var visit func(f *FileEnt)
 	visit = func(f *FileEnt) {
 		if seen[f] {
@@ -47,10 +58,31 @@ func VerifValidate(fsys p9p.FileSys) error {
 		}
 	}
 	visit(fs.root)
+	for _, f := range extra {
+		if _, ok := links[f]; !ok {
+			links[f] = 0
+		}
+		visit(f)
+	}
 	for f, n := range links {
 		if f.nref != n {
 			return fmt.Errorf("node %q: nref=%d links=%d", f.Info.Name, f.nref, n)
 		}
 	}
 	return nil
+}
+
+// VerifHandleNodes returns the tree nodes a handle refers to (its own node
+// and the ancestors it was reached through), as opaque values to pass to
+// VerifValidate after the handle has been clunked.
+func VerifHandleNodes(d p9p.Dirent) []interface{} {
+	h, ok := d.(FileHandle)
+	if !ok || h.ent == nil {
+		return nil
+	}
+	out := []interface{}{h.ent}
+	for _, p := range h.parents {
+		out = append(out, p)
+	}
+	return out
 }
